@@ -40,6 +40,7 @@ type holder17 struct {
 
 var h17 map[string]*holder17
 
+// All holders carry the SAME subject name: a recipient or signer is identified by issuer and serial number, never by subject.
 // issuer / serial assignment of Containers.tla: a,b under CA1, c,x under CA2; serials a=77 b=-77 c=77 x=-77
 func setup17() error {
 	if h17 != nil {
@@ -78,7 +79,7 @@ func setup17() error {
 			ca = ca2
 		}
 		h.sm2Key, _ = sm2.GenerateKey(rand.Reader)
-		t := &x509.Certificate{SerialNumber: big.NewInt(a.serial), Subject: pkix.Name{CommonName: "holder " + a.name}, NotBefore: pkiEpoch.Add(-time.Hour),
+		t := &x509.Certificate{SerialNumber: big.NewInt(a.serial), Subject: pkix.Name{CommonName: "holder"}, NotBefore: pkiEpoch.Add(-time.Hour),
 			NotAfter: pkiEpoch.Add(10 * 365 * 24 * time.Hour), KeyUsage: x509.KeyUsageDigitalSignature | x509.KeyUsageKeyEncipherment | x509.KeyUsageDataEncipherment,
 			SignatureAlgorithm: x509.SM2WithSM3}
 		der, err := x509.CreateCertificate(t, ca.cert, &h.sm2Key.PublicKey, ca.key)
@@ -94,7 +95,7 @@ func setup17() error {
 		if rserial < 0 {
 			rserial = 1 - rserial
 		}
-		rt := &stdx509.Certificate{SerialNumber: big.NewInt(rserial), Subject: pkix.Name{CommonName: "rsa holder " + a.name}, NotBefore: pkiEpoch.Add(-time.Hour),
+		rt := &stdx509.Certificate{SerialNumber: big.NewInt(rserial), Subject: pkix.Name{CommonName: "rsa holder"}, NotBefore: pkiEpoch.Add(-time.Hour),
 			NotAfter: pkiEpoch.Add(10 * 365 * 24 * time.Hour), KeyUsage: stdx509.KeyUsageDigitalSignature | stdx509.KeyUsageKeyEncipherment}
 		rder, err := stdx509.CreateCertificate(rand.Reader, rt, rsaCACert[a.ca], &h.rsaKey.PublicKey, rsaCA[a.ca])
 		if err != nil {
